@@ -68,7 +68,12 @@ func remoteEnv() {
 	remoteOnce.Do(func() {
 		ctx := context.Background()
 		mem := &memChunks{m: map[string][]byte{}}
-		ref := uploadWithManifest(mem, "r.txt", []byte("content of a remote file, not stored locally"))
+		// two data chunks, so that the pyramid contains an intermediate chunk (the file's root)
+		content := make([]byte, boson.ChunkSize+2000)
+		for i := range content {
+			content[i] = byte(i*13 + i/97)
+		}
+		ref := uploadWithManifest(mem, "r.bin", content)
 		remoteRoot = ref
 		py, err := traversal.New(mem).GetPyramid(ctx, ref)
 		if err != nil {
@@ -169,6 +174,9 @@ func (e *ciEnv) use(extraRoots ...boson.Address) {
 	}
 	ci.CancelFindChunkInfo(fileRoot)
 	for _, r := range extraRoots {
+		if e.finding && r.Equal(fileRoot) {
+			continue // see below
+		}
 		ci.DelDiscover(r)
 	}
 	// Deleting the discovery queue of a root while the goroutine that FindChunkInfo spawned for it
@@ -261,13 +269,15 @@ var tgChunkInfoReq = register(&target{
 	},
 })
 
-func TestC37_ChunkInfoReq(t *testing.T) { check(t, tgChunkInfoReq, 160) }
+func TestC37_ChunkInfoReq(t *testing.T) { check(t, tgChunkInfoReq, 120) }
 
 // ---- chunkinfo resp handler --------------------------------------------------------------------
 
 var ciRespTypes = []reflect.Type{typ(&cipb.ChunkInfoResp{})}
 
 func ciRespOf(c *kase) *cipb.ChunkInfoResp {
+	ids()
+	fileEnv()
 	m, _ := decodeFrames(c.In, ciRespTypes)
 	if len(m) < 1 || m[0] == nil {
 		return nil
@@ -283,7 +293,10 @@ func fixCiResp(c *kase, f func(r *cipb.ChunkInfoResp)) {
 
 func isHexStr(s string) bool { _, err := hex.DecodeString(s); return err == nil }
 
-// number of data chunks of the roots whose pyramid the node can compute locally
+// localChunkCount is the chunk count the node will compute for root (getChunkSize): the
+// number of distinct data chunks of the traversal of root over the local store; 0 when the
+// traversal fails. Any address present in the local store works as a "root" (a bare data
+// chunk counts 1), so the count is computed the way the node computes it, on the same store.
 func localChunkCount(root []byte) int {
 	switch {
 	case bytes.Equal(root, fileRoot.Bytes()):
@@ -291,7 +304,25 @@ func localChunkCount(root []byte) int {
 	case bytes.Equal(root, smallRoot.Bytes()):
 		return 1
 	}
-	return 0
+	n := 0
+	if pe := safe(func() {
+		ctx, cancel := context.WithTimeout(context.Background(), 5*time.Second)
+		defer cancel()
+		hs, _, err := trav.GetChunkHashes(ctx, boson.NewAddress(root), nil)
+		if err != nil {
+			return
+		}
+		seen := map[string]struct{}{}
+		for _, l := range hs {
+			for _, h := range l {
+				seen[string(h)] = struct{}{}
+			}
+		}
+		n = len(seen)
+	}); pe != nil {
+		return 0
+	}
+	return n
 }
 
 // the presence entry of the answering node itself, if it is too short for the file
@@ -430,6 +461,16 @@ func genPyramidReply(t *rapid.T) ([]byte, string) {
 		p.addBytes(hc.hash, hc.chunk)
 	}
 	b, g := genStream(t, streamSpec{types: ciPyRespTypes, pool: p, honest: func(*rapid.T) []proto.Message { return honestPyramidFrames() }})
+	if rapid.IntRange(0, 5).Draw(t, "zeroext") == 0 {
+		// hash-preserving change of an honest pyramid: the BMT pads with zeros, so appending zero
+		// bytes to a chunk (or cutting trailing zeros) keeps its address valid
+		h := honestPyramidFrames()
+		k := rapid.IntRange(0, len(h)-2).Draw(t, "zeroext-frame")
+		r := h[k].(*cipb.ChunkPyramidResp)
+		n := rapid.SampledFrom([]int{1, 5, 31, 32, 33, 64, 100}).Draw(t, "zeroext-n")
+		r.Chunk = append(append([]byte(nil), r.Chunk...), make([]byte, n)...)
+		return encodeFrames(h, nil), "zero-extended"
+	}
 	if g == "raw" || rapid.IntRange(0, 2).Draw(t, "reseal") == 0 {
 		return b, g
 	}
@@ -531,6 +572,85 @@ func fixPyramidReplySpins(c *kase) {
 	}
 }
 
+// an intermediate chunk (span > payload) whose payload is not a whole number of 32-byte references
+func chunkRagged(chunk []byte) bool {
+	if len(chunk) < 8 {
+		return false
+	}
+	span := int64(binary.LittleEndian.Uint64(chunk[:8]))
+	n := len(chunk) - 8
+	return span > int64(n) && n%32 != 0
+}
+
+func pyramidReplyRagged(c *kase) bool {
+	for _, r := range c.Replies {
+		m, _ := decodeFrames(r, ciPyRespTypes)
+		for _, x := range m {
+			if x != nil && chunkRagged(x.(*cipb.ChunkPyramidResp).Chunk) {
+				return true
+			}
+		}
+	}
+	return false
+}
+
+// the repair cuts the payload down to whole references and re-seals the chunk if it was sealed
+func fixPyramidReplyRagged(c *kase) {
+	for i, r := range c.Replies {
+		m, rest := decodeFrames(r, ciPyRespTypes)
+		changed := false
+		for _, x := range m {
+			if x == nil {
+				continue
+			}
+			pr := x.(*cipb.ChunkPyramidResp)
+			if chunkRagged(pr.Chunk) {
+				sealed := false
+				if ch, err := cac.NewWithDataSpan(pr.Chunk); err == nil && bytes.Equal(ch.Address().Bytes(), pr.Hash) {
+					sealed = true
+				}
+				pr.Chunk = pr.Chunk[:8+(len(pr.Chunk)-8)/32*32]
+				if sealed {
+					if ch, err := cac.NewWithDataSpan(pr.Chunk); err == nil {
+						pr.Hash = ch.Address().Bytes()
+					}
+				}
+				changed = true
+			}
+		}
+		if changed {
+			c.Replies[i] = encodeFrames(m, rest)
+		}
+	}
+}
+
+func raggedShape(target string) shape {
+	return shape{
+		sig: "C37/pyramid-intermediate-chunk-ragged",
+		// The panic unwinds through traversal.GetChunkHashes' deferred function, which (err still
+		// being nil) stores the hostile pyramid in the local store: every later traversal of that
+		// root in the same process panics again, on a service goroutine. The witness therefore
+		// runs in a child process and takes its poisoned store with it.
+		child: true,
+		match: pyramidReplyRagged,
+		fix:   fixPyramidReplyRagged,
+		witness: func() kase {
+			ids()
+			remoteEnv()
+			// the honest pyramid with 5 zero bytes appended to the file's intermediate root chunk
+			h := honestPyramidFrames()
+			for _, x := range h {
+				r := x.(*cipb.ChunkPyramidResp)
+				if len(r.Chunk) >= 8 && int64(binary.LittleEndian.Uint64(r.Chunk[:8])) > int64(boson.ChunkSize) {
+					r.Chunk = append(append([]byte(nil), r.Chunk...), 0, 0, 0, 0, 0)
+				}
+			}
+			return kase{Target: target, Gen: "witness", K: map[string]int{"rootsel": 0}, Replies: [][]byte{encodeFrames(h, nil)},
+				In: pstub.Frame(mustMarshal(&cipb.ChunkPyramidReq{RootCid: remoteRoot.Bytes(), Target: otherID.overlay.Bytes()}))}
+		},
+	}
+}
+
 func spinShape(target string) shape {
 	return shape{
 		sig:   "C37/pyramid-chunk-span-spin",
@@ -603,10 +723,10 @@ var tgChunkInfoPyramid = register(&target{
 		settle(g0, 2*time.Second)
 		return cls
 	},
-	shapes: []shape{spinShape("chunkinfo-pyramid")},
+	shapes: []shape{spinShape("chunkinfo-pyramid"), raggedShape("chunkinfo-pyramid")},
 })
 
-func TestC37_ChunkInfoPyramid(t *testing.T) { check(t, tgChunkInfoPyramid, 160) }
+func TestC37_ChunkInfoPyramid(t *testing.T) { check(t, tgChunkInfoPyramid, 120) }
 
 // ---- pyramid client (sendPyramid reader -> onChunkPyramidResp -> traversal) ----------------------
 
@@ -646,7 +766,7 @@ var tgChunkInfoPyramidClient = register(&target{
 		settle(g0, 2*time.Second)
 		return cls
 	},
-	shapes: []shape{spinShape("chunkinfo-sendPyramid")},
+	shapes: []shape{spinShape("chunkinfo-sendPyramid"), raggedShape("chunkinfo-sendPyramid")},
 })
 
 func TestC37_ChunkInfoPyramidClient(t *testing.T) { check(t, tgChunkInfoPyramidClient, 200) }
